@@ -153,8 +153,9 @@ struct Any { virtual void op(const std::vector<std::string> &) = 0; virtual void
 template <class Cn, class E, bool S> struct Impl : Any { Runner<Cn, E, S> r; void op(const std::vector<std::string> &t) override { r.op(t); } void finish() override { r.finish(); } };
 static Any *make(const std::string &kind, const std::string &elem, int N) {
     if (kind == "vec") { if (elem == "tracked") return new Impl<igris::vector<Tracked, TrackAlloc<Tracked>>, Tracked, false>(); if (elem == "dbl") return new Impl<igris::vector<double, TrackAlloc<double>>, double, false>(); return new Impl<igris::vector<int, TrackAlloc<int>>, int, false>(); }
-    if (elem == "tracked") { if (N == 1) return new Impl<igris::static_vector<Tracked, 1>, Tracked, true>(); if (N == 2) return new Impl<igris::static_vector<Tracked, 2>, Tracked, true>(); if (N == 3) return new Impl<igris::static_vector<Tracked, 3>, Tracked, true>(); if (N == 4) return new Impl<igris::static_vector<Tracked, 4>, Tracked, true>(); if (N == 5) return new Impl<igris::static_vector<Tracked, 5>, Tracked, true>(); if (N == 300) return new Impl<igris::static_vector<Tracked, 300>, Tracked, true>(); fprintf(stderr, "capacity %d is not instantiated\n", N); exit(3); }
-    if (N == 1) return new Impl<igris::static_vector<int, 1>, int, true>(); if (N == 2) return new Impl<igris::static_vector<int, 2>, int, true>(); if (N == 3) return new Impl<igris::static_vector<int, 3>, int, true>(); if (N == 4) return new Impl<igris::static_vector<int, 4>, int, true>(); if (N == 5) return new Impl<igris::static_vector<int, 5>, int, true>(); if (N == 300) return new Impl<igris::static_vector<int, 300>, int, true>(); fprintf(stderr, "capacity %d is not instantiated\n", N); exit(3);
+    if (elem == "tracked") { if (N == 1) return new Impl<igris::static_vector<Tracked, 1>, Tracked, true>(); if (N == 2) return new Impl<igris::static_vector<Tracked, 2>, Tracked, true>(); if (N == 3) return new Impl<igris::static_vector<Tracked, 3>, Tracked, true>(); if (N == 4) return new Impl<igris::static_vector<Tracked, 4>, Tracked, true>(); if (N == 5) return new Impl<igris::static_vector<Tracked, 5>, Tracked, true>(); if (N == 300) return new Impl<igris::static_vector<Tracked, 300>, Tracked, true>(); if (N == 255) return new Impl<igris::static_vector<Tracked, 255>, Tracked, true>(); if (N == 256) return new Impl<igris::static_vector<Tracked, 256>, Tracked, true>(); fprintf(stderr, "capacity %d is not instantiated\n", N); exit(3); }
+    if (N == 1) return new Impl<igris::static_vector<int, 1>, int, true>(); if (N == 2) return new Impl<igris::static_vector<int, 2>, int, true>(); if (N == 3) return new Impl<igris::static_vector<int, 3>, int, true>(); if (N == 4) return new Impl<igris::static_vector<int, 4>, int, true>(); if (N == 5) return new Impl<igris::static_vector<int, 5>, int, true>(); if (N == 300) return new Impl<igris::static_vector<int, 300>, int, true>(); if (N == 255) return new Impl<igris::static_vector<int, 255>, int, true>(); if (N == 256) return new Impl<igris::static_vector<int, 256>, int, true>();
+    if (N == 65535) return new Impl<igris::static_vector<int, 65535>, int, true>(); if (N == 65536) return new Impl<igris::static_vector<int, 65536>, int, true>(); if (N == 65537) return new Impl<igris::static_vector<int, 65537>, int, true>(); fprintf(stderr, "capacity %d is not instantiated\n", N); exit(3);
 }
 #ifndef VEC_ENTRY
 #define VEC_ENTRY main_entry
